@@ -31,6 +31,7 @@ mod util;
 mod val;
 mod vals;
 mod wal;
+mod sptx;
 mod join;
 mod epo;
 use epo::graph; // shim: `crate::graph::lpg` for the #[path]-included epoch_store.rs (stream epo)
@@ -91,6 +92,7 @@ fn main() {
                 "q" => q::generate(seed, cases, &mut out),
                 "opt" => opt::generate(seed, cases, &mut out),
                 "hnsw" => hnsw::generate(seed, cases, &mut out),
+                "sptx" => sptx::generate(seed, cases, &mut out),
                 "join" => join::generate(seed, cases, &mut out),
                 "epo" => epo::generate(seed, cases, &mut out),
                 "par" => par::generate(seed, cases, &mut out),
@@ -189,6 +191,7 @@ fn main() {
                     Some("qa") => qa::run(&toks[1..]),
                     Some("c15b") => c15b::run(&toks[1..]),
                     Some("hnsw") => hnsw::run(&toks[1..]),
+                    Some("sptx") => sptx::run(&toks[1..]),
                     Some("join") => join::run(&toks[1..]),
                     Some("epo") => epo::run(&toks[1..]),
                     Some("par") => par::run(&toks[1..]),
